@@ -2384,8 +2384,9 @@ def _inline_single_use_once(fn: ast.AST, pinned: Set[str]) -> bool:
             if not (isinstance(st, ast.Assign) and len(st.targets) == 1 and isinstance(st.targets[0], ast.Name) and id(st) in pos):
                 continue
             x = st.targets[0].id
-            if x in pinned or x in args or isinstance(st.value, (ast.Name, ast.Constant, ast.Lambda, ast.Yield, ast.YieldFrom, ast.Await)):
-                continue
+            if x in pinned or x in args or isinstance(st.value, (ast.Name, ast.Constant, ast.Lambda, ast.Yield, ast.YieldFrom, ast.Await,
+                                                                  ast.ListComp, ast.GeneratorExp, ast.SetComp, ast.DictComp)):
+                continue            # (a named comprehension is a sequence the rules look at under its name)
             refs = [(n, i) for n, i in names if n.id == x]
             if len(refs) != 2:
                 continue
